@@ -1,14 +1,24 @@
 """C16 - conditional and range requests obey their validators and byte ranges.
 
-Model: lean/CpModel/Ranges.lean + Validators.lean, theorems: lean/CpProofs/C16*.lean,
-driver: lean/Drv/C16.lean, generated tables: lean/CpModel/Gen/C16Tables.lean.
+Models: lean/CpModel/Ranges.lean, Validators.lean, CondFlow.lean (request flow: response.stream, handler scripts, the tool
+as a step), CondElements.lean (HeaderMap.elements in full), HttpDate.lean (HTTPDate); theorems: lean/CpProofs/C16*.lean;
+driver: lean/Drv/C16.lean; generated tables: lean/CpModel/Gen/C16Tables.lean.
 
-Three streams, each through the real code, an independent oracle and the model:
-  R  `httputil.get_ranges(header, length)` called directly            (unit level)
-  E  `httputil.header_elements('If-Match', value)` vs `elementsSimple` (the list split)
-  Q  whole requests through in-process WSGI: serve_file / staticdir / serve_fileobj(file) /
-     serve_fileobj(BytesIO) / handler-generated body, with or without tools.etags (autotags),
-     GET/HEAD/POST, HTTP/1.0|1.1, Range and the four conditional headers.
+Streams, each through the real code, an independent oracle and the model:
+  R  `httputil.get_ranges(header, length)` called directly                                   (unit level)
+  E  `httputil.header_elements('If-Match', value)`: the comma split (`elementsSimple`) and the whole function with
+     parameters / unquoting / sorting (`elementsFull`)
+  D  `httputil.HTTPDate(t)` for integer timestamps vs `httpDate`
+  Q  whole requests through in-process WSGI, evaluated on what the WSGI iterable delivered:
+     who serves / validates: serve_file | staticdir (two configurations, index files) | serve_fileobj(file) |
+       serve_fileobj(BytesIO / object without fileno) | handler-generated body whose handler runs a script of
+       `response.body = entity` / validate_since() / validate_etags(autotags) steps before or after the body exists,
+       with or without tools.etags (autotags / handler ETag) at before_finalize
+     x response.stream on/off x body shape bytes/list/generator/file object x GET/HEAD/POST/PUT x HTTP/1.0|1.1
+     x Range x If-Match / If-None-Match / If-Modified-Since / If-Unmodified-Since / If-Range
+     x configuration that must not matter (debug logging, Content-Disposition, pre-set Content-Length, cookies).
+     Three systematic tables run in every tier (validator decision table, flow table, extras table) next to the
+     generated requests; multipart bodies are also decoded by the Lean reference receiver.
 
 Oracles are written from the property statement (see docs/C16.md for the readings taken):
 Python slicing for ranges, a per-header decision table for the validators.
@@ -72,8 +82,12 @@ THEOREMS = ['CpProofs.C16.' + t for t in (
 LEVEL = 'proof'
 TECHNIQUE = ('Lean 4 proof: get_ranges refined to a declarative RFC 7233 byte-range semantics on every '
              'grammar-generated header text (induction over the header structure), bounds invariant for every header '
-             'string, slice equalities for _serve_fileobj, validator decision table by case analysis; model tied to '
-             'httputil/static/cptools by differential runs (direct calls and in-process WSGI requests)')
+             'string, slice equalities for _serve_fileobj, validator decision table by case analysis, request flow with '
+             'response.stream and self-validating handlers as a step machine (induction over scripts), header-element '
+             'parser incl. stable sort (permutation + order invariance of the decision), HTTP-date injectivity (calendar '
+             'arithmetic + kernel-checked finite cases), multipart framing inverted by a delimiter-scanning receiver; '
+             'models tied to httputil/static/cptools/_cperror/_cprequest by differential runs (direct calls and in-process '
+             'WSGI requests over three systematic tables and generated requests)')
 LEVEL_TEXT = ('Proved in Lean over the model of the repaired code, without size bounds: for EVERY header text and length '
               'every slice get_ranges returns is non-empty and inside the entity; on every header of the RFC 7233 '
               'byte-range grammar (any digit strings, lists, overlaps, order, beyond-EOF values, Python whitespace '
@@ -84,33 +98,55 @@ LEVEL_TEXT = ('Proved in Lean over the model of the repaired code, without size 
               'entity on HTTP/1.0 / unknown length / ignored header; validate_since / validate_etags equal the equality-'
               'comparison decision table, the whole request (handler exceptions, tools.etags, finalize, HEAD) equals a '
               'flat table, 304/412 exactly when a header dictates it, the full or ranged entity otherwise, 304 only for '
-              'GET/HEAD and never with body / Content-Range / Content-Length; the multipart body bytes decode back to '
-              'exactly the parts; the entity-tag list split returns exactly the listed tags. Partial: md5, '
-              'HTTPDate(mtime), the boundary text and HeaderMap.elements with parameters / sorting are inputs or '
-              'correspondence-only; handlers that themselves answer 304/412 are correspondence-only.')
-LEVEL_NOTE = ('Trusted: Lean kernel (axioms propext, Classical.choice, Quot.sound only); the hand models CpModel/Ranges.lean '
-              'and Validators.lean as validated on every run by the differential streams (get_ranges directly, '
-              'header_elements, whole in-process WSGI requests over five resource kinds); CPython semantics of '
-              'split/strip/lower/int/re.fullmatch (whitespace and lower-case tables regenerated from the interpreter); '
-              'md5, HTTPDate and the multipart boundary are parameters; the harness and its oracles.')
+              'GET/HEAD. Round 2: the request flow with response.stream and handlers that validate themselves (any '
+              'script of body / validate_since / validate_etags(autotags) steps, the tool as one more step, the '
+              'run-twice guard): conservative extension of the first model, 304/412 iff a header dictates it to an '
+              'executed step, the full entity otherwise, every validator-raised 304 without body / Content-Range / '
+              'Content-Length streamed or buffered, a raise always discards the entity, 412 never carries it; '
+              'HeaderMap.elements in full (parameters, unquoting, stable sort, reversal, str): a permutation of the '
+              'header-order elements in descending order, the decision independent of the order and equal to the simple '
+              'split on parameter-free values, elements with parameters compared with their parameters; HTTPDate is '
+              'injective on 1970..9999, so If-(Un)Modified-Since over dates is equality of the instants; If-Range is '
+              'ignored; the multipart bytes are inverted by a delimiter-scanning receiver for every boundary text under '
+              'the (necessary) hypothesis that the delimiter does not occur early in a piece. Partial: the unrestricted '
+              '"every 304 has no body" is FALSE for a handler that sets 304 itself on a streamed response (negation '
+              'proved, witness replayed, known finding F17d); md5 and the boundary text are parameters; str.lower() of parameter names is '
+              'ASCII-only in the model; fractional mtimes are compared only end to end.')
+LEVEL_NOTE = ('Trusted: Lean kernel (axioms propext, Classical.choice, Quot.sound only); the hand models CpModel/Ranges.lean, '
+              'Validators.lean, CondFlow.lean, CondElements.lean, HttpDate.lean as validated on every run by the differential '
+              'streams (get_ranges, header_elements, HTTPDate directly; whole in-process WSGI requests over seven resource '
+              'kinds x stream x handler scripts); CPython semantics of split/strip/lower/int/re.fullmatch/str comparison/'
+              'datetime.fromtimestamp (whitespace and lower-case tables regenerated from the interpreter); md5 and the '
+              'multipart boundary are parameters; the harness and its oracles.')
 TRUSTED_BASE = [
-    'md5 (autotags), HTTPDate(mtime) and the multipart boundary are inputs of the model, not modelled',
-    'CPython str.split/strip/lower/int and re.fullmatch("[0-9]+") as transcribed in CpModel/Ranges.lean; the whitespace '
-    'and lower-case tables are regenerated from the running interpreter on every run',
-    'HeaderMap.elements/str(HeaderElement) for If-Match lists: rendered by the real code and passed to the model; the '
-    'split itself is transcribed for parameter-free elements and compared (stream E)',
+    'md5 (autotags, incl. the md5 of the empty body) and the multipart boundary are inputs of the model, not modelled',
+    'CPython str.split/strip/lower/int, re.fullmatch("[0-9]+"), str.__lt__ (code-point order), str.find/count/replace as '
+    'transcribed in CpModel/Ranges.lean and CondElements.lean; the whitespace and lower-case tables are regenerated from '
+    'the running interpreter on every run',
+    'datetime.fromtimestamp(t, utc).timetuple() = proleptic Gregorian calendar as transcribed in CpModel/HttpDate.lean '
+    '(compared with HTTPDate on generated integer timestamps every run)',
+    'the order in which cherrypy runs handler, before_finalize hooks, HTTPRedirect/HTTPError.set_response and finalize, as '
+    'transcribed in CpModel/CondFlow.lean (compared on every request of the Q stream)',
 ]
 ASSUMPTIONS = [
     'byte positions have fewer than 4300 digits (beyond that CPython int() refuses the conversion and the header is ignored)',
     'the file does not change between os.stat and the reads of one request',
     'validators are compared for equality, as the statement says (no date ordering, no weak comparison)',
+    'parameter names inside If-Match / If-None-Match elements contain no cased non-ASCII letters (str.lower() is modelled '
+    'for ASCII only)',
+    'mtimes are integers or carry a fraction that does not round up to the next second at microsecond precision',
+    'a handler that sets status 304 itself on a streamed response and still returns a body gets it delivered: recorded '
+    'as known finding F17d (every 304 raised by a validator is bodiless, proved and checked)',
 ]
 RULE = ('R: Range header texts from the RFC 7233 byte-range grammar (first-last, first-, -suffix, lists, overlapping, '
         'out-of-order, beyond EOF, optional whitespace, boundary positions around the length) plus character/structure '
-        'mutations, against lengths 0..70000 biased to boundaries; Q: requests = resource kind x method x protocol x '
-        'etags tool mode x validators (matching / non-matching / * / weak / lists / dates in other formats) x Range; a '
-        'case is non-trivial when the header is non-empty (R) or at least one of Range / conditional headers is present '
-        '(Q); distinct = distinct (header text, length) resp. distinct request tuple')
+        'mutations, against lengths 0..70000 biased to boundaries; E: entity-tag lists with weak tags, quoted commas / '
+        'semicolons, parameters (quoted, escaped, repeated names), repeated values; D: integer timestamps 0..9999-12-31 biased '
+        'to month / year / leap boundaries; Q: requests = who serves and validates (seven resource kinds, handler scripts '
+        'validating before / after the body) x response.stream x body shape x method x protocol x etags tool mode x '
+        'validators (matching / non-matching / * / weak / lists / parameters / dates in other formats) x Range x If-Range x '
+        'answer-neutral configuration; a case is non-trivial when the header is non-empty (R, E) or at least one of Range / '
+        'conditional headers is present (Q); distinct = distinct (header text, length) resp. distinct request tuple')
 
 
 # ----------------------------------------------------------------------------------------------
@@ -515,8 +551,14 @@ def check_elements(ctx, values, compare=True):
             ctx.compared()
             ctx.count('E:params' if ';' in (v or '') else 'E:plain')
             m = [] if full[idx] == '[]' else [dec_text(x) for x in full[idx].split('/')]
-            if m != got:
-                ctx.disagree(case, got, m, 'header_elements: elements as rendered, in order')
+            if sorted(m) != sorted(got):
+                ctx.disagree(case, sorted(got), sorted(m), 'header_elements: the elements as rendered (str(HeaderElement))')
+            elif m != got:
+                # the order (stable sort by value, reversed) is modelled and proved irrelevant to validate_etags
+                # (`sorting_irrelevant`): a different order is recorded, it is not a violation of the property
+                ctx.count('E:order_differs_from_model')
+            else:
+                ctx.count('E:order_as_modelled')
 
 
 # ----------------------------------------------------------------------------------------------
@@ -1056,6 +1098,17 @@ def oracle_request(case, obs):
         else:
             rng_allowed = [None]
     since_active, etag_active, etag_candidates = validation_of(case)
+    if kind != 'gen' and case.get('ifr') is not None and rng_allowed != [None]:
+        # If-Range is not part of the statement.  RFC 7233 3.2 lets a server that implements it answer the whole
+        # entity when the validator it carries is not the current one; CherryPy ignores the header.  Both are
+        # accepted unless the header carries the current validator (then the Range applies either way).
+        cur = {httpdate(case['mtime'])} if kind != 'bio' else set()
+        if case['hetag']:
+            cur.add(case['hetag'])
+        elif case['etags'] == 2:
+            cur.add('"%s"' % hashlib.md5(content).hexdigest())
+        if case['ifr'] not in cur and None not in rng_allowed:
+            rng_allowed = rng_allowed + [None]
     if kind == 'gen':
         L = case['lm'] if since_active else None
     elif kind == 'bio':
@@ -1078,6 +1131,10 @@ def oracle_request(case, obs):
             dictated = bool(L and case.get('ims') and case['ims'] == L and gh)
             if dictated or not (stream and base == 304):
                 bad.append(('304 with a %d-byte body' % len(body), 'req:304_with_body'))
+            else:
+                # known finding F17d: finalize() lets a streamed response keep its body whatever the status
+                bad.append(('304 chosen by the handler itself on a streamed response keeps its %d-byte body' % len(body),
+                            'req:304_with_body:handler_status_streamed'))
         return bad
     # ---- the current validators ------------------------------------------------------------
     if etag_candidates is None:
@@ -1328,6 +1385,8 @@ def witness_cases(ctx):
     out = []
     for e in ctx.known:
         w = e.get('witness', {})
+        if 'case' in w:
+            out.append(dict(w['case']))
         for h in w.get('headers', []):
             if w.get('fileobj') == 'BytesIO':
                 out.append({'op': 'Q', 'kind': 'bio', 'method': 'GET', 'proto': '1.1', 'etags': 0, 'base': 200,
